@@ -305,8 +305,10 @@ undef(void)
 #endif
 	if (m) {
 		free(name);
-		free(m->param);
-		free(m->token);
+		/*
+		m may be in the middle of an invocation (a directive among
+		its arguments), which still reads its parameters and tokens
+		*/
 		*entry = NULL;
 	}
 	scan(&tok);
